@@ -343,3 +343,110 @@ package hclwrite
 // verif:func NewEmptyFile
 //@ assigns nothing
 //@ ensures fresh(ret) && ret != nil && ret.children != nil && WF(ret.children) && handle(ret.body, ret.children) && typeis(ret.body.content, ptr(Body)) && unbox(ret.body.content, ptr(Body)) != nil && InvBody(unbox(ret.body.content, ptr(Body)))
+
+// ---- formatter (unit U5) ----
+// verif:unit U5 props=C09
+
+// verif:func (*Token).asHCLSyntax
+//@ pure
+//@ ensures ret.Type == t.Type && ret.Bytes == t.Bytes
+
+// verif:func tokenBracketChange
+//@ requires tok != nil
+//@ pure
+//@ ensures opens: ret == 1 <==> (tok.Type == hclsyntax.TokenOBrace || tok.Type == hclsyntax.TokenOBrack || tok.Type == hclsyntax.TokenOParen || tok.Type == hclsyntax.TokenTemplateControl || tok.Type == hclsyntax.TokenTemplateInterp)
+//@ ensures closes: ret == 0 - 1 <==> (tok.Type == hclsyntax.TokenCBrace || tok.Type == hclsyntax.TokenCBrack || tok.Type == hclsyntax.TokenCParen || tok.Type == hclsyntax.TokenTemplateSeqEnd)
+//@ ensures range: ret == 1 || ret == 0 || ret == 0 - 1
+
+// verif:func tokenIsNewline
+//@ requires tok != nil
+//@ pure
+//@ ensures tok.Type == hclsyntax.TokenNewline ==> ret
+//@ ensures ret ==> tok.Type == hclsyntax.TokenNewline || tok.Type == hclsyntax.TokenComment
+
+// The spacing rule must never put a space where whitespace would become string
+// content (C09: the output has the same tokens): directly after an opening quote,
+// heredoc introducer or literal chunk, and directly before a literal chunk or a
+// closing quote / heredoc marker. (A comma cannot precede template content, so the
+// always-space-after-comma rule is exempt.)
+// verif:pred templateLeft(ty int) = ty == hclsyntax.TokenOQuote || ty == hclsyntax.TokenOHeredoc || ty == hclsyntax.TokenQuotedLit || ty == hclsyntax.TokenStringLit
+// verif:pred templateRight(ty int) = ty == hclsyntax.TokenQuotedLit || ty == hclsyntax.TokenStringLit || ty == hclsyntax.TokenCQuote || ty == hclsyntax.TokenCHeredoc
+
+// verif:func spaceAfterToken
+//@ requires subject != nil && before != nil && after != nil
+//@ pure
+//@ ensures newline: after.Type == hclsyntax.TokenNewline || after.Type == hclsyntax.TokenNil ==> !ret
+//@ ensures templateLeft: templateLeft(subject.Type) ==> !ret
+//@ ensures templateRight: templateRight(after.Type) && subject.Type != hclsyntax.TokenComma ==> !ret
+//@ ensures interpSeq: subject.Type == hclsyntax.TokenTemplateSeqEnd && (after.Type == hclsyntax.TokenTemplateInterp || after.Type == hclsyntax.TokenTemplateControl) ==> !ret
+//@ ensures identSeparated: subject.Type == hclsyntax.TokenIdent && after.Type == hclsyntax.TokenIdent ==> ret
+//@ ensures identNumber: (subject.Type == hclsyntax.TokenIdent && after.Type == hclsyntax.TokenNumberLit) || (subject.Type == hclsyntax.TokenNumberLit && after.Type == hclsyntax.TokenIdent) || (subject.Type == hclsyntax.TokenNumberLit && after.Type == hclsyntax.TokenNumberLit) ==> ret
+// Separability of "1 .1" (number, dot, number): after the dot a space must remain,
+// otherwise the three tokens re-lex as the single number 1.1 (finding F8, open).
+//@ ensures numDotNum: before.Type == hclsyntax.TokenNumberLit && subject.Type == hclsyntax.TokenDot && after.Type == hclsyntax.TokenNumberLit ==> ret
+
+// tokFrame: formatting may only change SpacesBefore - type and bytes of every token are kept (C09).
+// verif:pred tokFrame() = forall p *Token :: { p.Type } existed(p) ==> p.Type == old(p.Type) && p.Bytes == old(p.Bytes)
+// cellsOK(l): every token pointer in the three cells of a line is non-nil.
+// verif:pred cellsOK(l formatLine) = (forall j int :: { l.lead[j] } 0 <= j && j < len(l.lead) ==> l.lead[j] != nil) && (forall j int :: { l.assign[j] } 0 <= j && j < len(l.assign) ==> l.assign[j] != nil) && (forall j int :: { l.comment[j] } 0 <= j && j < len(l.comment) ==> l.comment[j] != nil)
+
+// verif:func formatSpaces
+//@ requires forall i int :: { lines[i] } 0 <= i && i < len(lines) ==> cellsOK(lines[i])
+//@ assigns allof(Token)
+//@ ensures frame: tokFrame()
+//@ loopall invariant tokFrame()
+
+// verif:func formatIndent
+//@ requires forall i int :: { lines[i] } 0 <= i && i < len(lines) ==> cellsOK(lines[i])
+//@ assigns allof(Token)
+//@ ensures frame: tokFrame()
+//@ loopall invariant tokFrame()
+//@ loop 1 invariant indents != nil && fresh(indents)
+//@ loop 4 invariant indents != nil && fresh(indents)
+
+// lineOK(l): cells hold non-nil tokens and a present assign/comment cell is not empty.
+// verif:pred lineOK(l formatLine) = cellsOK(l) && (l.assign != nil ==> len(l.assign) >= 1) && (l.comment != nil ==> len(l.comment) >= 1)
+
+// verif:func linesForFormat
+//@ requires forall j int :: { tokens[j] } 0 <= j && j < len(tokens) ==> tokens[j] != nil
+//@ assigns nothing
+//@ ensures lines: forall i int :: { ret[i] } 0 <= i && i < len(ret) ==> lineOK(ret[i])
+//@ loop 1 invariant lineCount >= 1
+//@ loop 2 invariant len(lines) == lineCount && fresh(lines) && 0 <= li && 0 <= lineStart && lineStart <= rangeindex + 1
+//@ loop 2 invariant forall k int :: { lines[k] } 0 <= k && k < len(lines) ==> lineOK(lines[k])
+//@ loop 3 invariant fresh(lines) && (forall k int :: { lines[k] } 0 <= k && k < len(lines) ==> lineOK(lines[k]))
+
+// verif:func (Tokens).Columns
+//@ requires forall j int :: { ts[j] } 0 <= j && j < len(ts) ==> ts[j] != nil
+//@ pure
+
+// verif:func formatCells
+//@ requires forall i int :: { lines[i] } 0 <= i && i < len(lines) ==> lineOK(lines[i])
+//@ assigns allof(Token)
+//@ ensures frame: tokFrame()
+//@ loopall invariant tokFrame()
+//@ loop 1 invariant rangeindex + 1 <= len(lines) && 0 - 1 <= chainStart && chainStart <= rangeindex + 1 && (chainStart != 0 - 1 ==> (forall k int :: { lines[k] } chainStart <= k && k <= rangeindex ==> lines[k].assign != nil))
+//@ loop 2 invariant rangeindex + 1 <= len(lines) && 0 - 1 <= chainStart && chainStart <= rangeindex + 1 && (chainStart != 0 - 1 ==> (forall k int :: { lines[k] } chainStart <= k && k <= rangeindex ==> lines[k].comment != nil))
+
+// verif:func formatCells$1
+//@ requires addr(chainStart) != addr(maxColumns)
+//@ requires 0 <= chainStart && chainStart <= i && i <= len(lines)
+//@ requires forall k int :: { lines[k] } 0 <= k && k < len(lines) ==> lineOK(lines[k])
+//@ requires forall k int :: { lines[k] } chainStart <= k && k < i ==> lines[k].assign != nil
+//@ assigns allof(Token), chainStart, maxColumns
+//@ ensures frame: tokFrame() && chainStart == 0 - 1 && maxColumns == 0
+//@ loopall invariant tokFrame()
+
+// verif:func formatCells$2
+//@ requires addr(chainStart) != addr(maxColumns)
+//@ requires 0 <= chainStart && chainStart <= i && i <= len(lines)
+//@ requires forall k int :: { lines[k] } 0 <= k && k < len(lines) ==> lineOK(lines[k])
+//@ requires forall k int :: { lines[k] } chainStart <= k && k < i ==> lines[k].comment != nil
+//@ assigns allof(Token), chainStart, maxColumns
+//@ ensures frame: tokFrame() && chainStart == 0 - 1 && maxColumns == 0
+//@ loopall invariant tokFrame()
+
+// verif:func format
+//@ requires forall j int :: { tokens[j] } 0 <= j && j < len(tokens) ==> tokens[j] != nil
+//@ assigns allof(Token)
+//@ ensures frame: tokFrame()
